@@ -70,3 +70,4 @@ def run(rep, tier):
     # induction lemma (stated here, discharged by the two contracts): every name handed out is inserted, so by
     # induction over any sequence of insert/tmp calls a fresh name differs from all earlier ones.
     native.search_on_failure(rep, 'C26', obs)
+    verus.settle_lost_anchors(u, obs, rep)
